@@ -367,6 +367,18 @@ def bufSpec : Bits → List BufOp → List (Outcome (Bits × Option Err))
     if c = [] then .ok ([], if k = 0 then none else some .eof) :: bufSpec [] ops
     else .ok (c.take (min k c.length), none) :: bufSpec (c.drop (min k c.length)) ops
 
+/-! ### aliasing: what a constructor does to the reader it is given -/
+
+/-- a part NewMultiReader gets in fq: a well-formed section / multi reader or a zero reader, standing inside its data -/
+def PartOK (d : Nat) (r : Rd) : Prop :=
+  WFd d r ∧ (topSM r = true ∨ ∃ p n, r = .zero p n) ∧ posOf r ≤ (den r).length
+
+/-- part by part: same cursor, same bits, still a good part -/
+def PartsKept (d : Nat) : List Rd → List Rd → Prop
+  | [], [] => True
+  | r :: rs, r' :: rs' => (posOf r' = posOf r ∧ den r' = den r ∧ PartOK d r') ∧ PartsKept d rs rs'
+  | _, _ => False
+
 /-! ### aheadreadseeker against bytes.Reader -/
 
 /-- byte-level operations whose results are determined by the data alone: io.ReadFull and Seek
